@@ -15,6 +15,7 @@
  *   L <j>                                  j-th datagram emitted by the client is lost
  *   D <j> <d1> <d2>                        j-th datagram emitted by the client arrives twice (delays d1,d2)
  *   Y <j> <d>                              j-th datagram emitted by the client is delayed by d ms
+ *   F <j>                                  the send call for the j-th datagram of the client fails (ENOBUFS): nothing leaves
  *   E                                      end of case (run it)
  *
  * With srv=1 on the X line the peer is not scripted: a real libcoap server context (node 1 of the simulator) listens on the
@@ -142,6 +143,7 @@ on_tx(int node, coap_session_t *s, const sim_dgram_t *dg, sim_verdict_t *v) {
     case 1: v->copies = 0; break;
     case 2: v->copies = 2; v->delay[0] = x[j].d1; v->delay[1] = x[j].d2; break;
     case 3: v->copies = 1; v->delay[0] = x[j].d1; break;
+    case 4: v->copies = -1; break;
     default: break;
     }
   }
@@ -517,6 +519,9 @@ main(int argc, char **argv) {
     } else if (line[0] == 'L') {
       int sv = line[1] == 'S', j = atoi(line + 1 + sv);
       if (j >= 0 && j < MAXR) (sv ? cs.stxv : cs.txv)[j].kind = 1;
+    } else if (line[0] == 'F') {
+      int j = atoi(line + 1);
+      if (j >= 0 && j < MAXR) cs.txv[j].kind = 4;
     } else if (line[0] == 'D') {
       int sv = line[1] == 'S', j, d1, d2;
       if (sscanf(line + 1 + sv, "%d %d %d", &j, &d1, &d2) == 3 && j >= 0 && j < MAXR) {
